@@ -43,6 +43,17 @@ Readings fixed here (each is the reading under which the repaired code is right)
   a call leaves every argument object as it found it, returns nothing that shares memory with an argument, and gives the
   same result when it is repeated with the same objects, with fresh equal objects, or with plain Python numbers.
   Not demanded: that two results are distinct objects (a cache may hand out one object twice).
+* (round 5) arguments of another kind than documented: a flag is read by its truth value, a bool / numpy integer is the
+  integer, a float with an integer value is that integer as pitch_margin - for these the oracle judges the call by the
+  value the argument stands for; texts, None, lists in place of a number are compared with the model only.
+* (round 5) "sounds during frame j" is read over the exact values of the columns (rationals).  The code forms binary64
+  differences and products before it rounds; where one of them is not exact (`floats_exact`) the oracle gives no verdict
+  on shape / cells / index rows (nor on a rejection that hinges on the frames) - such calls are compared with the
+  binary64 model (Model/PianoRollFloat.lean) only, exactly, cell by cell; every other call is compared with the binary64
+  model AND the exact model.  Round trip: with remove_silence / a time margin / end_time the decoder returns every onset
+  moved by the one shift int(time_margin*time_div)/time_div - min_time (it cannot know it), everything else as it was.
+  Rolls with non-integer cells are outside the property's quantifier ("all integer rolls"): their decoding (every non-zero
+  cell sounds, velocity int(cell)) is compared with the model, the oracle judges only frame / alias / history.
 """
 import json
 import math
@@ -59,31 +70,51 @@ from core import Eval
 PROPERTY = "C13"
 DRIVER = "drv_c13"
 PROPS = ["PartituraModel.Props.C13", "PartituraModel.Props.C13Args", "PartituraModel.Props.C13Float",
-         "PartituraModel.Props.C13Session"]
+         "PartituraModel.Props.C13Session", "PartituraModel.Props.C13Raster",
+         "PartituraModel.Props.C13DecodeQ", "PartituraModel.Props.C13Shift", "PartituraModel.Props.C13Kinds"]
 TRUSTED = [
     "scipy.sparse.csc_matrix((data,(row,col)),shape,dtype=int): places each triplet, rejects out-of-range indices; [21:109,:] slicing; toarray()",
-    "np.round = round half to even on binary64; np.argsort = some permutation that sorts (ties in any order: order_indep shows no output depends on it)",
-    "binary64 evaluation of time_div*(onset - t0), time_div*duration, time_margin*time_div, time_div*(end_time - t0) and of the sums in the "
-    "column count: exact on the generated domain (float32 columns, small time_div, dyadic margins); every case is checked for exactness "
-    "before it is compared, inexact ones are skipped and counted",
+    "np.round = round half to even on binary64 (probed on five ties by harness/translate_c13lits.py: C13L_HALF_EVEN); np.argsort = some "
+    "permutation that sorts (ties in any order: order_indep / raster_order_indep show no output depends on it)",
+    "IEEE-754 binary64: astype(float) of f4 / i4 / i8 columns is exact, `onset - min_time`, `time_div * x`, `time_margin * time_div`, "
+    "`end_time - min_time`, the sums of the column count are each ONE correctly rounded operation (Model f64 = roundBin 53 -1074, "
+    "no overflow / nan / integers beyond 2^53 modelled); tied to the code by comparing EVERY pr / pc observation with the binary64 "
+    "model exactly - including those whose products are inexact (families f64: onsets on and one or two ulps beside half-frame "
+    "points of resolutions 3,5,6,7,10,12,24,100, inexact min_time, margins 0.1 / 0.3 / 1/3, end times off the grid)",
     "np.isclose(colsum, 0) modelled as colsum = 0 (integer cell values); float division of the normalised pitch-class roll compared to the exact rational with rtol 1e-9",
     "the rows of the note array that ensure_notearray builds from a Part / Score / PerformedPart / Performance (note_array_from_part(_list), "
     "PerformedPart.note_array: other properties' subject) are taken from the implementation; the dispatch itself (which kinds are accepted, "
     "which columns the array then has) is modelled from the generated layout table and stated in ensure_dispatch",
     "IEEE-754: Python float division = correctly rounded binary64, storage in an f4 column = round to nearest even binary32 "
-    "(Model roundBin; compared exactly, value by value); int32 storage of pitch / velocity (|value| < 2^31)",
+    "(Model roundBin; compared exactly, value by value; format read off the live result dtype: C13L_DEC_PREC/EMIN/EMAX); int32 storage of "
+    "pitch / velocity (OverflowError outside, modelled by fitsIntCol for the real-valued decoder; the integer decoder's cases stay below 2^31)",
+    "numpy nonzero() / int() on a float, float32 or bool roll, dense or csc / csr with explicit zeros: cell != 0 and truncation toward zero "
+    "(probed: C13L_DEC_TRUNC, C13L_DEC_ZERO_ACTIVE); nan / inf cells are not generated",
     "sessions (Model/PianoRollSession.lean): that no call writes through the caller's time_div / time_margin / end_time objects or the "
     "note array is the model's step function (store returned unchanged); it is tied to the code by `sess` requests that compare every "
-    "result and the final value of every shared object, and by the oracle's frame / alias / history clauses on the real objects",
+    "result and the final value of every shared object, and by the oracle's frame / alias / history clauses on the real objects; "
+    "sessions are answered by the exact model (an option set with inexact products is left out of the `sess` request)",
     "harness/translate_c13.py reads the constants from the live source (signatures, ast literals, two finite function tables by calling the "
-    "functions on their whole domain); tables_spec / tables_extracted pin every generated value",
+    "functions on their whole domain); harness/translate_c13lits.py reads the literals of the frame arithmetic and of the decoder's "
+    "storage by probing the live functions; tables_spec / tables_extracted / lits_spec / lits_extracted pin every generated value",
 ]
 PARTIAL = [
-    "cell_iff / cell_binary / idx_designate / decode_encode assume MIDI velocities > 0 (a velocity-0 note yields an explicit zero cell; cell_value covers that case)",
-    "decode_encode: stated for the options under which times can be read back (RoundTripOpts: no onset mode / separation / margins / end_time, remove_silence=False, not binary) and onsets >= 0 on the grid, over the exact rational times; the float32 columns are covered by round_spec / stored_close (error bound 2^-23) and stored_exact / stored_grid (exactness on power-of-two grids), not by a round trip through re-rasterisation",
-    "float effects inside the rasteriser (binary64 products before np.round) and the float division of the normalised pitch-class roll are outside the exact-rational model: checked per case / compared with tolerance, not proved",
+    "cell_iff / cell_binary / idx_designate / decode_encode(_shift) and their raster_* forms assume MIDI velocities > 0 (a velocity-0 note yields an explicit zero cell; cell_value covers that case)",
+    "decode_encode_shift: full notes on the fixed pitch axis (no onset mode / separation / pitch margin / binary), time_margin >= 0, notes grid-aligned "
+    "relative to frame 0, over the exact rational times; remove_silence / time_margin / end_time / piano_range are free and cost one common shift of the onsets. "
+    "The float32 columns of the decoder are covered by round_spec / stored_close (error bound 2^-23) and stored_exact / stored_grid (exactness on "
+    "power-of-two grids), not by a round trip through re-rasterisation",
+    "binary64 inside the rasteriser: the clauses that do not depend on how a product was rounded (raster_*: one frame at least, separation, onset mode, "
+    "maximum velocity, non-zero iff covered, bounds, order independence, index rows) are proved for the binary64 code on ALL inputs; that its frames "
+    "are the frames of the exact reading is proved under a side condition (float_exact: products are binary64 numbers; frame_margin: the exact product "
+    "keeps 2^-51 of its size away from every half-frame point) - float_differs is a tie where they differ; shape_cols / first_frame / "
+    "decode_encode speak about the exact model only. The float division of the normalised pitch-class roll is compared with tolerance, not proved",
     "scipy sparse assembly, slicing and toarray are trusted primitives (Roll.cell is their assumed meaning); compared cell by cell",
-    "argument kinds outside the model: non-numeric strings / booleans for time_div, end_time, time_margin; non-integer pitch_margin; float-valued rolls for the decoder",
+    "argument kinds (Model/PianoRollKinds.lean: None / bool / int / float / text / list for every keyword, compared with the code by `prv` requests): "
+    "not modelled are a float pitch_margin that is no integer (the code truncates rows toward zero and can merge the two lowest pitches), texts "
+    "for end_time other than decimal integer literals and texts without a digit, underscores / non-ASCII digits in numeric texts, bytes, nan / inf "
+    "(also as decoder cells), time_div of the decoder given as np.float32 (the quotient is then formed in binary32); the oracle judges only the "
+    "number-like / flag-like kinds (truthiness of int / numpy bool flags, bool and numpy integers as numbers, integral floats)",
 ]
 RULE = ("random structured note arrays (score units beat/quarter/div, performance units sec/tick, f4/i4 columns in shuffled dtype order, "
         "with/without velocity and channel columns, rows in random order, pitch pools forcing collisions, zero durations, drum channel 9, "
@@ -100,12 +131,23 @@ RULE = ("random structured note arrays (score units beat/quarter/div, performanc
         "time_margin, end_time (Python number, numpy scalar, 0-d array, one-element array of f8 / f4 / i8, shape (1,1), read-only, "
         "list, tuple) passed to 3-6 compute_pianoroll / compute_pitch_class_pianoroll calls with repeating option sets (first onset "
         "> 0 or negative, silence removed or kept), then the same calls with fresh objects and with plain Python numbers. "
-        "distinct = distinct request text; non-trivial = at least one request answered with a roll/note list (not err)")
+        "ROUND 5: f8 note arrays on / beside the half-frame points of non-dyadic resolutions with inexact min_time, margins and end "
+        "times (compared with the binary64 model; the count of cases in which the exact reading gives another roll is in the "
+        "distribution); rolls with real-valued cells (f8 / f4 / bool, dense / Fortran / read-only / csc / csr with explicit zeros, "
+        "integer parts 0 / 1 / 64 / negative, equal and different neighbours, values beyond int32); round trips with "
+        "remove_silence / integer and fractional margins / end_time; arguments of another kind than documented (flags as ints / numpy "
+        "bools / texts / None / lists, bool / text / None / list / tuple / float for time_div, time_margin, pitch_margin, end_time, "
+        "time_unit). distinct = distinct request text; non-trivial = at least one request answered with a roll/note list (not err)")
 LEVEL_TEXT = ("Lean 4 theorems over an executable exact-rational model of ensure_notearray's dispatch, the keyword handling (defaults, int(), "
               ".item()), _make_pianoroll / compute_pianoroll / compute_pitch_class_pianoroll / pianoroll_to_notearray incl. its float32 "
               "columns (all note lists, all option values, by induction and permutation invariance), stated over constant tables regenerated "
               "from the source, and tied to the code by a differential run that compares shape, every non-zero cell, every index row and "
               "every decoded value exactly, plus an independent Fraction rasteriser as oracle on the implementation's outputs. "
+              "Round 5: the rasteriser is modelled a second time in the code's own arithmetic (binary64 after every operation, "
+              "literals regenerated by probing); every observation is compared with it exactly, also at half-frame ties the rounding "
+              "moves; the order / cell / index-row clauses are proved for it on all inputs, agreement with the exact reading under an "
+              "explicit margin condition; the decoder is modelled and specified on real-valued rolls (it extends the integer one); the "
+              "round trip is proved for every remove_silence / margin / end_time up to the one shift the decoder cannot know. "
               "Sessions of calls on shared argument objects are modelled with a store (frame, history independence, container "
               "independence proved for all call sequences) and compared call by call and store value by store value.")
 
@@ -244,6 +286,75 @@ def gen_object(rng, tier):
     return {"src": rng.choice(["emptylist", "plainarray", "other", "none"])}
 
 
+F64_TD = [3, 5, 6, 7, 10, 12, 24, 100, 3, 10, 8]
+F64_TM = [0, 0, 0.1, 0.3, 0.7, 1.1, 1 / 3, 0.5, 2.3]
+
+
+def nudge(rng, x):
+    """x, or one of its binary64 neighbours"""
+    k = rng.choice([0, 0, 0, 1, -1, 2, -2])
+    for _ in range(abs(k)):
+        x = math.nextafter(x, math.inf if k > 0 else -math.inf)
+    return x
+
+
+def gen_f64_array(rng, tier):
+    """FRAME BOUNDARIES IN BINARY64: a note array with f8 time columns whose onsets / durations sit on (or one or two
+    units in the last place beside) the half-frame points (k + 1/2) / time_div of a resolution that is no power of
+    two, first onsets that make `onset - min_time` inexact, margins and end times that are no dyadic numbers: the
+    frame is decided by the rounding of the binary64 subtraction and product.  One option set per array uses the
+    resolution the array was built for."""
+    td = rng.choice(F64_TD)
+    units = rng.sample(["beat", "quarter", "sec"], rng.choice([1, 1, 2]))
+    base = rng.choice([0.0, 0.0, 0.1, 1 / 3, 2.7, -0.3, 1e-3, 5.0])
+    has_vel = rng.random() < 0.5
+    pool = [rng.randint(40, 80) for _ in range(rng.randint(1, 3))]
+    rows = []
+    for _ in range(rng.choice([1, 2, 3, 4, 6])):
+        r = {"p": rng.choice(pool), "t": [], "v": rng.randint(1, 127) if has_vel else None, "c": None}
+        for _u in units:
+            m = rng.random()
+            if m < 0.6:
+                on = base + (rng.randint(0, 30) + 0.5) / td
+            elif m < 0.8:
+                on = base + rng.randint(0, 30) / td
+            else:
+                on = base + rng.uniform(0, 8)
+            m = rng.random()
+            if m < 0.55:
+                du = (rng.randint(0, 12) + 0.5) / td
+            elif m < 0.7:
+                du = rng.randint(0, 12) / td
+            elif m < 0.8:
+                du = 0.0
+            else:
+                du = rng.uniform(0, 3)
+            r["t"].append([nudge(rng, on), max(0.0, nudge(rng, du))])
+        rows.append(r)
+    if rng.random() < 0.5:
+        # the first note exactly at `base` (so that min_time = base)
+        rows[0]["t"] = [[base, t[1]] for t in rows[0]["t"]]
+    rng.shuffle(rows)
+    arr = {"src": "array", "units": units, "has_vel": has_vel, "has_chan": False, "rows": rows, "form": "wide", "fam": "f64"}
+    opts = []
+    for _ in range(6):
+        o = gen_opts(rng, arr)
+        o.pop("omit", None)
+        o["td"] = td if rng.random() < 0.8 else rng.choice(F64_TD)
+        o["tu"] = rng.choice(units + ["auto"])
+        o["tm"] = rng.choice(F64_TM)
+        o["rs"] = rng.random() < 0.6
+        o["et"] = None
+        if rng.random() < 0.4:
+            k = units.index(o["tu"]) if o["tu"] in units else 0
+            last = max(r["t"][k][0] + r["t"][k][1] for r in rows)
+            o["et"] = nudge(rng, last + rng.choice([0.0, 0.1, 1e-9, 0.5 / o["td"], 1 / o["td"], 1.0, 2.3, -1e-12]))
+        opts.append(o)
+    arr["opts"] = opts
+    arr["k"] = "pr"
+    return arr
+
+
 TD_POOL = [1, 2, 8, 16, "auto", "auto", 3, 12]
 TD_ODD = [0, -1, -2, 2.7, 8.0, 3.5, -1.5, 0.5, {"a0": 4}, {"a0": 2.5}, {"arr": [4]}, {"arr": [2, 4]}]
 TM_POOL = [0, 0, 1, 2]
@@ -367,6 +478,94 @@ def gen_roll(rng, tier):
     return d
 
 
+QVALS = [0.5, 0.7, -0.5, 0.25, 1.2, 1.9, 2.0, 1.0, 1.0, 64.0, 64.9, 64.5, -1.5, -1.2, -2.0, 100.99, 127.0, 1e-300, 0.999999]
+QBIG = [3e9, -3e9, 2147483647.5, 2147483648.0, -2147483648.5, -2147483649.0, 1e18]
+
+
+def gen_rollq(rng, tier):
+    """a roll with REAL-valued cells (float64 / float32 / bool, dense / Fortran / csc / csr, explicit zeros in the sparse
+    forms): values between integers (integer part 0, 1, 64, negative), adjacent cells with equal and with different
+    integer parts, rarely values beyond the int32 column"""
+    rows = rng.choice([128, 88, 88, 128, 128, 12]) if rng.random() < 0.93 else rng.choice([0, 87, 129])
+    n = rng.choice([1, 2, 3, 5, 8, 12])
+    dt = rng.choice(["f8", "f8", "f8", "f4", "b1"])
+    cells = {}
+    if rows:
+        prow = [rng.randrange(rows) for _ in range(rng.randint(1, 3))]
+        for p in prow:
+            alpha = [0, 0] + [rng.choice(QVALS) for _ in range(rng.randint(1, 4))]
+            for j in range(n):
+                v = rng.choice(alpha)
+                if v:
+                    cells[(p, j)] = v
+        for _ in range(rng.randint(0, 3)):
+            cells[(rng.randrange(rows), rng.randrange(n))] = rng.choice(QVALS)
+        if rng.random() < 0.06:
+            cells[(rng.randrange(rows), rng.randrange(n))] = rng.choice(QBIG)
+    td = rng.choice([1, 2, 8, 12, 16, 3]) if rng.random() < 0.8 else rng.choice([None, None, 0, 0.5, 2.5, -2, 0.1, 7])
+    form = rng.choice(["dense", "dense", "F", "csc", "csr", "ro"])
+    xz = []
+    if form in ("csc", "csr") and rows and rng.random() < 0.5:
+        xz = [[rng.randrange(rows), rng.randrange(n)] for _ in range(rng.randint(1, 3))]
+    return {"k": "decq", "rows": rows, "n": n, "dt": dt, "cells": sorted([p, j, v] for (p, j), v in cells.items()),
+            "td": td, "unit": rng.choice(["sec", "beat", "quarter"]), "form": form, "xz": xz}
+
+
+FLAG_KEYS = ["oo", "ns", "pr", "rd", "rs", "bi", "ri"]
+FLAG_KINDS = [["int", 0], ["int", 1], ["int", 2], ["npbool", True], ["npbool", False], ["str", ""], ["str", "x"], ["none"],
+              ["list", []], ["list", [0]], ["float", 0.0], ["float", 1.5], ["npint", 0], ["npint", 3]]
+TD_KINDS = [["bool", True], ["bool", False], ["str", "8"], ["str", " 4 "], ["str", "+2"], ["str", "-1"], ["str", "0"], ["str", "abc"],
+            ["str", ""], ["str", "8.0"], ["str", "auto"], ["str", " auto"], ["str", "Auto"], ["str", "12"], ["str", "\t3\n"],
+            ["str", "+ 2"], ["str", "--2"], ["none"], ["list", [4]], ["tuple", [4]], ["float", 2.7], ["npint", 3]]
+TM_KINDS = [["bool", True], ["bool", False], ["none"], ["str", "1"], ["list", [1]], ["npint", 1]]
+PM_KINDS = [["bool", True], ["bool", False], ["float", 2.0], ["float", 0.0], ["float", -1.0], ["npint", 2], ["none"], ["str", "1"],
+            ["list", [1]]]
+TU_KINDS = [["none"], ["int", 3], ["list", []]]
+
+
+def gen_kinds(rng, tier):
+    """ARGUMENTS OF ANOTHER KIND than documented: flags given as ints / numpy bools / strings / None / lists (truthiness),
+    booleans, strings, None, lists for time_div / time_margin / pitch_margin / end_time / time_unit"""
+    while True:
+        arr = gen_array(rng, "quick")
+        if arr["units"] and 1 <= len(arr["rows"]) <= 6:
+            break
+    opts = []
+    for _ in range(8):
+        o = gen_opts(rng, arr)
+        o.pop("omit", None)
+        o.pop("pc", None)
+        if isinstance(o["td"], dict):
+            o["td"] = rng.choice([1, 2, 8])
+        if isinstance(o["et"], dict):
+            o["et"] = None
+        if o["tu"] not in arr["units"] + ["auto"]:
+            o["tu"] = "auto"
+        kd = {}
+        for k in rng.sample(FLAG_KEYS, rng.randint(0, 3)):
+            kd[k] = rng.choice(FLAG_KINDS)
+        m = rng.random()
+        if m < 0.45:
+            kd["td"] = rng.choice(TD_KINDS)
+        elif m < 0.6:
+            kd["tm"] = rng.choice(TM_KINDS)
+        elif m < 0.75:
+            kd["pm"] = rng.choice(PM_KINDS)
+        elif m < 0.9:
+            ends = ends_of(rng, arr, arr["units"])
+            last = int(math.ceil(max(ends))) if ends else 4
+            kd["et"] = rng.choice([["bool", True], ["str", str(last + rng.choice([0, 1, 3, 40]))], ["str", " %d " % (last + 2)],
+                                   ["str", "abc"], ["str", ""], ["str", "+%d" % (last + 5)], ["none"], ["str", "-3"]])
+        elif m < 0.95:
+            kd["tu"] = rng.choice(TU_KINDS)
+        if not kd:
+            kd[rng.choice(FLAG_KEYS)] = rng.choice(FLAG_KINDS)
+        o["kd"] = kd
+        opts.append(o)
+    arr.update(k="kinds", opts=opts)
+    return arr
+
+
 def gen_roundtrip(rng, tier):
     """grid-aligned notes; same-pitch notes neither overlap nor touch"""
     td = rng.choice([1, 2, 8, 16, 12])
@@ -381,7 +580,18 @@ def gen_roundtrip(rng, tier):
         busy.setdefault(p, []).append((on, on + ln))
         notes.append([p, on, ln, rng.randint(1, 127)])
     rng.shuffle(notes)
-    return {"k": "rt", "td": td, "notes": notes, "piano": rng.random() < 0.4, "unit": rng.choice(["sec", "beat"])}
+    d = {"k": "rt", "td": td, "notes": notes, "piano": rng.random() < 0.4, "unit": rng.choice(["sec", "beat"])}
+    # round 5: the options that move the notes by one common shift (their own random stream: the older cases stay)
+    r2 = random.Random(rng.getrandbits(32))
+    if r2.random() < 0.6 and notes:
+        d["rs"] = r2.random() < 0.6
+        d["tm"] = r2.choice([0, 0, 1, 2, 0.5, 1.5, 0.25])
+        if r2.random() < 0.4:
+            last = max(on + ln for (_, on, ln, _) in notes)
+            # on a resolution that is no power of two the float32 times are off the grid by ~1e-8: an end time exactly
+            # at the last offset could fall short of it by rounding (the property does not say which way)
+            d["et_frames"] = last + int(d["tm"] * td) + r2.choice([0, 1, 3, 0.5] if td != 12 else [0.5, 1, 3])
+    return d
 
 
 ET_FORMS = ["arr", "arr", "arr", "arr_ro", "a0", "a0", "a0_ro", "np", "np_f4", "np_i8", "arr_f4", "arr_i8", "a0_i8", "a0_f4",
@@ -482,6 +692,16 @@ def cases(rng, tier):
     hist_rng = random.Random(rng.getrandbits(64))
     for i in range(n_hist):
         yield gen_hist(hist_rng, tier)
+    # round 5 families draw from their own streams (the older families keep their cases for a given seed)
+    k_rng = random.Random(rng.getrandbits(64))
+    for i in range({"quick": 60, "thorough": 600}.get(tier, 600)):
+        yield gen_kinds(k_rng, tier)
+    q_rng = random.Random(rng.getrandbits(64))
+    for i in range({"quick": 200, "thorough": 3000}.get(tier, 3000)):
+        yield gen_rollq(q_rng, tier)
+    f64_rng = random.Random(rng.getrandbits(64))
+    for i in range({"quick": 120, "thorough": 1500}.get(tier, 1500)):
+        yield gen_f64_array(f64_rng, tier)
     for _ in range(n_arr):
         arr = gen_array(rng, tier)
         arr["k"] = "pr"
@@ -1011,14 +1231,14 @@ def rasterise(notes, e, td, et):
     else:
         x = Fraction(et) - t0
         if x * td < last:
-            return ("err", "end_time before the last offset")
+            return ("err", "end_time before the last offset", t0, last)
         cols = math.ceil(tm * td + td * x)
     cells = {}
     for (row, a, b, _, v, _) in spans:
         if not (0 <= row < full_rows):
             return ("err", "pitch outside the roll")
         if a < 0 or b > cols:
-            return ("err", "frames outside the roll")
+            return ("err", "frames outside the roll", t0, last)
         for j in range(a, b):
             val = 1 if e["bi"] else v
             cells[(row, j)] = max(cells.get((row, j), 0), val)
@@ -1062,6 +1282,8 @@ def check_roll(lay, arr, e, res, exc):
     notes = notes_of(lay, arr, e, unit)
     exp = rasterise(notes, e, td, et)
     if exp[0] == "err":
+        if len(exp) > 2 and not floats_exact(notes, e, td, exp[2], et, exp[3]):
+            return fails, "inexact"   # a rejection that hinges on the frames: no verdict when they are not exact
         if exc is None:
             fails.append("error: input must be rejected (%s) but a roll was returned" % exp[1])
         return fails, None
@@ -1207,11 +1429,32 @@ class Ctx:
         self.nontrivial = False
         self.skipped = 0
         self.large = 0
+        self.n_exact = 0
+        self.f64_compared = 0    # option sets whose binary64 products are inexact: compared with the binary64 model
+        self.f64_differs = 0     # ... of which the exact-rational reading gives another roll (a frame boundary decided by rounding)
+        self.session = False     # sessions are answered by the exact model: inexact option sets are left out there
+
+
+def differs_from_exact(c, e, res):
+    """does the roll the implementation computed in binary64 differ from the exact-rational reading?"""
+    sel = select_unit(c.lay, e)
+    et = et_scalar(e["et"])
+    exp = rasterise(notes_of(c.lay, c.arr, e, sel[0]), e, sel[1], et)
+    if exp[0] == "err":
+        return True
+    rows, cols, cells, idx, _, _ = exp
+    mat = res[0] if isinstance(res, tuple) else res
+    a = mat.toarray()
+    if a.shape != (rows, cols):
+        return True
+    return {(int(p), int(j)): int(a[p, j]) for p, j in zip(*a.nonzero())} != cells
 
 
 def observe_pr(c, o, tag=""):
     """one compute_pianoroll call with the case's shared argument objects: oracle by value, correspondence request;
-    returns (result, exception, go_on) - go_on False: no verdict / no request for this option set"""
+    returns (result, exception, go_on) - go_on False: no verdict / no request for this option set;
+    go_on 'f64': compared with the binary64 model only (its products are not exact: the oracle, which reads the
+    property over the exact values, gives no verdict)"""
     ev = c.ev
     e = effective(o)
     kw = kwargs_of(o, c.pool)
@@ -1219,7 +1462,8 @@ def observe_pr(c, o, tag=""):
     fails, info = ([], None) if c.neutral else check_roll(c.lay, c.arr, e, res, exc)
     if exc is None and aliased(res, [c.inp] + list(kw.values())):
         fails.append("alias: the returned roll / index rows share memory with an argument")
-    if info == "inexact":
+    inexact = info == "inexact"
+    if inexact and c.session:
         c.skipped += 1
         return res, exc, False
     ev.oracle += ["%s%s [%s opts %s]" % (f, tag, c.src, {k: v for k, v in o.items() if k != "pc"}) for f in fails]
@@ -1228,21 +1472,52 @@ def observe_pr(c, o, tag=""):
         if getattr(m0, "nnz", 0) > MAX_CELLS or (getattr(m0, "shape", (0, 0))[1] > MAX_COLS and "pc" in o):
             c.large += 1  # the model's cell-by-cell answer is quadratic in the number of cells
             return res, exc, False
-    ev.requests.append("pr %s %s %s" % (W.s(c.src), req_args(o), c.arr_req))
     if exc is not None:
-        ev.impl.append("err")
+        want = "err"
     else:
         c.nontrivial = True
         try:
-            ev.impl.append(fmt_roll(res[0], res[1]) if isinstance(res, tuple) else fmt_roll(res, None))
+            want = fmt_roll(res[0], res[1]) if isinstance(res, tuple) else fmt_roll(res, None)
         except Exception as x:
-            ev.impl.append("unreadable result %r" % (x,))
+            want = "unreadable result %r" % (x,)
+    args = "%s %s %s" % (W.s(c.src), req_args(o), c.arr_req)
+    # the code's own arithmetic (binary64 after every operation): every option set
+    ev.requests.append("pr " + args)
+    ev.impl.append(want)
+    if inexact:
+        c.f64_compared += 1
+        try:
+            if exc is not None or differs_from_exact(c, e, res):
+                c.f64_differs += 1
+        except Exception:
+            pass
+        return res, exc, "f64"
+    # the exact-rational model of the theorems: wherever the products are exact (every second option set of a case:
+    # the binary64 model, proved equal to it on such inputs by C13.float_exact, is compared on all of them)
+    c.n_exact += 1
+    if c.session or c.n_exact % 2 == 1:
+        ev.requests.append("prq " + args)
+        ev.impl.append(want)
     return res, exc, True
 
 
-def observe_pc(c, o, tag=""):
-    """one compute_pitch_class_pianoroll call (shared argument objects); returns (result, exception)"""
-    ev, M, inp, src = c.ev, c.M, c.inp, c.src
+def observe_pc(c, o, tag="", exact=True):
+    """one compute_pitch_class_pianoroll call (shared argument objects); returns (result, exception);
+    `exact` False: the binary64 model only"""
+    ev = Eval()
+    r2, e2 = _observe_pc(c, ev, o, tag)
+    c.ev.oracle += ev.oracle
+    for rq, im in zip(ev.requests, ev.impl):
+        c.ev.requests.append(rq)
+        c.ev.impl.append(im)
+        if exact:
+            c.ev.requests.append("pcq" + rq[2:])
+            c.ev.impl.append(im)
+    return r2, e2
+
+
+def _observe_pc(c, ev, o, tag):
+    M, inp, src = c.M, c.inp, c.src
     pe = pc_effective(o)
     kw = pc_kwargs_of(o, c.pool)
     r2, e2 = call(M.compute_pitch_class_pianoroll, inp, **kw)
@@ -1304,7 +1579,8 @@ def finish(c, before, what="compute_pianoroll"):
     ev.oracle += check_frame(c.pool, what)
     if freeze(c.inp) != before:
         ev.oracle.append("frame: %s modified its note_info argument" % what)
-    ev.info = {"skipped_inexact": c.skipped, "skipped_large": c.large}
+    ev.info = {"skipped_inexact": c.skipped, "skipped_large": c.large, "f64_compared": c.f64_compared,
+               "f64_differs": c.f64_differs}
     ev.key = ("|".join(ev.requests)) if c.nontrivial else None
     return ev
 
@@ -1319,7 +1595,7 @@ def eval_pr(d):
     for o in d["opts"]:
         _, _, go_on = observe_pr(c, o)
         if go_on and "pc" in o:
-            observe_pc(c, o)
+            observe_pc(c, o, exact=go_on is True)
     return finish(c, before)
 
 
@@ -1416,6 +1692,7 @@ def eval_hist(d):
     ev = Eval()
     inp = build_input(d)
     c = Ctx(ev, M, d, inp)
+    c.session = True
     before = freeze(inp)
     first = {}
     outs = []
@@ -1574,18 +1851,20 @@ def eval_dec(d):
     td_eff = 8 if td is None else td
     ev.requests.append("dec %d %d %s %s" % (d["rows"], d["n"], W.opt(W.q, td),
                                            W.lst(lambda c: "%d %d %d" % tuple(c), d["cells"])))
+    # the decoder for real-valued rolls (Model/PianoRollDecodeQ.lean) must agree on every integer roll
+    ev.requests.append("decq" + ev.requests[-1][3:])
     good_shape = d["rows"] in (128, 88)
     runs = run_decoder_oracle(a)
     if exc is not None:
-        ev.impl.append("err")
+        ev.impl += ["err", "err"]
         if good_shape and not (td_eff == 0 and runs):
             ev.oracle.append("dec: a %dx%d integer roll was rejected: %r" % (d["rows"], d["n"], exc))
         return ev
     if ("onset_" + unit_eff) not in (res.dtype.names or ()) or ("duration_" + unit_eff) not in (res.dtype.names or ()):
-        ev.impl.append("unreadable")
+        ev.impl += ["unreadable", "unreadable"]
         ev.oracle.append("dec: the result has no onset_%s / duration_%s columns (%r)" % (unit_eff, unit_eff, res.dtype.names))
         return ev
-    ev.impl.append(fmt_notes_exact(res, unit_eff))
+    ev.impl += [fmt_notes_exact(res, unit_eff)] * 2
     if not good_shape:
         ev.oracle.append("dec: a roll with %d rows was accepted" % d["rows"])
         return ev
@@ -1612,6 +1891,174 @@ def eval_dec(d):
     return ev
 
 
+def kind_obj(spec):
+    """the Python object of a kind description"""
+    t = spec[0]
+    if t == "none":
+        return None
+    v = spec[1]
+    if t == "bool":
+        return bool(v)
+    if t == "npbool":
+        return np.bool_(v)
+    if t == "int":
+        return int(v)
+    if t == "npint":
+        return np.int64(v)
+    if t == "float":
+        return float(v)
+    if t == "str":
+        return str(v)
+    if t == "tuple":
+        return tuple(v)
+    return list(v)
+
+
+def kind_tok(spec):
+    t = spec[0]
+    if t == "none":
+        return "N"
+    v = spec[1]
+    if t in ("bool", "npbool"):
+        return "B " + W.b(bool(v))
+    if t in ("int", "npint"):
+        return "I " + W.i(v)
+    if t == "float":
+        return "F " + W.q(W.as_fraction(v))
+    if t == "str":
+        return "S " + W.s(v)
+    return "L " + W.lst(lambda x: W.q(W.as_fraction(x)), v)
+
+
+def plain_tok(k, v):
+    """the token of a keyword passed in its documented form"""
+    if k == "tu":
+        return "S " + W.s(v)
+    if k == "td":
+        return "S auto" if v == "auto" else ("I " + W.i(v) if isinstance(v, int) else "F " + W.q(W.as_fraction(v)))
+    if k == "pm":
+        return "I " + W.i(v)
+    if k == "tm":
+        v = tm_val(v)
+        return "I " + W.i(v) if isinstance(v, int) else "F " + W.q(W.as_fraction(v))
+    if k == "et":
+        if v is None:
+            return "N"
+        return "I " + W.i(v) if isinstance(v, int) else "F " + W.q(W.as_fraction(v))
+    return "B " + W.b(v)
+
+
+def kind_value(k, spec):
+    """the documented-type value an argument of a NUMBER-LIKE / FLAG-LIKE kind stands for (the reading: flags are read by
+    truthiness, a bool is the integer 0 / 1, a numpy integer is that integer, a float with an integer value is that
+    integer); ('skip',) for the kinds the oracle gives no verdict on (strings, None, lists for a number)"""
+    t = spec[0]
+    if k in FLAG_KEYS:
+        if t in ("bool", "npbool", "int", "npint"):
+            return ("ok", bool(spec[1]))
+        return ("skip",)
+    if t in ("bool", "npbool", "int", "npint"):
+        return ("ok", int(spec[1]))
+    if t == "float" and k in ("pm",) and float(spec[1]) == int(spec[1]):
+        return ("ok", int(spec[1]))
+    if t == "float" and k in ("td", "tm", "et"):
+        return ("ok", float(spec[1]))
+    return ("skip",)
+
+
+def eval_kinds(d):
+    import partitura.utils.music as M
+
+    ev = Eval()
+    inp = build_input(d)
+    c = Ctx(ev, M, d, inp)
+    before = freeze(inp)
+    for o in d["opts"]:
+        kd = o["kd"]
+        kw = kwargs_of(o)
+        for k, spec in kd.items():
+            kw[PR_KWNAME[k]] = kind_obj(spec)
+        res, exc = call(M.compute_pianoroll, inp, **kw)
+        e = effective(o)
+        judged = True
+        for k, spec in kd.items():
+            val = kind_value(k, spec)
+            if val[0] == "ok":
+                e[k] = val[1]
+            else:
+                judged = False
+        if judged:
+            fails, info = check_roll(c.lay, c.arr, e, res, exc)
+            ev.oracle += ["%s [argument kinds %s; array opts %s]" % (f, kd, {k: v for k, v in o.items() if k != "kd"}) for f in fails]
+        if exc is None and aliased(res, [inp]):
+            ev.oracle.append("alias: the returned roll / index rows share memory with an argument")
+        m0 = None if exc is not None else (res[0] if isinstance(res, tuple) else res)
+        if m0 is not None and getattr(m0, "nnz", 0) > MAX_CELLS:
+            continue
+        toks = [kind_tok(kd[k]) if k in kd else plain_tok(k, o[k]) for k in PR_KEYS]
+        ev.requests.append("prv %s %s %s" % (W.s(c.src), " ".join(toks), c.arr_req))
+        if exc is not None:
+            ev.impl.append("err")
+        else:
+            c.nontrivial = True
+            try:
+                ev.impl.append(fmt_roll(res[0], res[1]) if isinstance(res, tuple) else fmt_roll(res, None))
+            except Exception as x:
+                ev.impl.append("unreadable result %r" % (x,))
+    return finish(c, before)
+
+
+def eval_decq(d):
+    """real-valued rolls: outside the property's quantifier ("all integer rolls") - the binary-format / aliasing / frame /
+    history clauses apply, the decoded notes are compared with the model (maximal runs of non-zero cells of one integer
+    part), the oracle gives no verdict on them"""
+    import partitura.utils.music as M
+    from scipy.sparse import csc_matrix, csr_matrix
+
+    ev = Eval()
+    a = np.zeros((d["rows"], d["n"]), dtype=d["dt"])
+    for p, j, v in d["cells"]:
+        a[p, j] = v
+    form = d["form"]
+    if form in ("csc", "csr"):
+        # explicit zeros are stored entries that are no cells
+        ps = [c[0] for c in d["cells"]] + [z[0] for z in d["xz"] if a[z[0], z[1]] == 0]
+        js = [c[1] for c in d["cells"]] + [z[1] for z in d["xz"] if a[z[0], z[1]] == 0]
+        vs = [a[c[0], c[1]] for c in d["cells"]] + [0 for z in d["xz"] if a[z[0], z[1]] == 0]
+        mk = csc_matrix if form == "csc" else csr_matrix
+        inp = mk((np.array(vs, dtype=a.dtype if d["dt"] != "b1" else "f8"), (ps, js)), shape=a.shape) if ps else mk(a)
+    elif form == "F":
+        inp = np.asfortranarray(a)
+    elif form == "ro":
+        inp = a.copy()
+        inp.flags.writeable = False
+    else:
+        inp = a.copy()
+    tdo, unit = d["td"], d["unit"]
+    frozen = freeze(inp)
+    res, exc = dec_call(M, inp, tdo, unit)
+    res2, exc2 = dec_call(M, inp, tdo, unit)
+    if canon_result(res, exc) != canon_result(res2, exc2):
+        ev.oracle.append("history: decoding the same roll object twice gives two different note arrays")
+    if freeze(inp) != frozen:
+        ev.oracle.append("frame: pianoroll_to_notearray modified its arguments")
+    if exc is None and aliased(res, [inp]):
+        ev.oracle.append("alias: the decoded note array shares memory with an argument")
+    cells = [[p, j, W.as_fraction(a[p, j])] for p, j, _ in d["cells"] if a[p, j] != 0]
+    ev.requests.append("decq %d %d %s %s" % (d["rows"], d["n"], W.opt(W.q, tdo),
+                                            W.lst(lambda c: "%d %d %s" % (c[0], c[1], W.q(c[2])), cells)))
+    if exc is not None:
+        ev.impl.append("err")
+        return ev
+    if ("onset_" + unit) not in (res.dtype.names or ()):
+        ev.impl.append("unreadable")
+        return ev
+    ev.impl.append(fmt_notes_exact(res, unit))
+    if d["rows"] in (128, 88):
+        ev.key = ev.requests[0]
+    return ev
+
+
 def eval_rt(d):
     """encode grid-aligned, non-touching notes, decode, expect the notes back"""
     import partitura.utils.music as M
@@ -1625,8 +2072,13 @@ def eval_rt(d):
     arr = np.array(recs, dtype=[("pitch", "i4"), ("onset_" + unit, "f4"), ("duration_" + unit, "f4"), ("velocity", "i4")])
     # float32 storage of k/12 is not on the grid exactly; the frames still are (checked via the correspondence of the roll)
     lay = ([unit], True, False)
-    o = {"tu": unit, "td": td, "oo": False, "ns": False, "pm": -1, "tm": 0, "pr": d["piano"], "rd": True,
-         "rs": False, "et": None, "bi": False, "ri": False}
+    o = {"tu": unit, "td": td, "oo": False, "ns": False, "pm": -1, "tm": d.get("tm", 0), "pr": d["piano"], "rd": True,
+         "rs": d.get("rs", False), "et": None, "bi": False, "ri": False}
+    # frame 0 and the leading margin: the one shift the decoder cannot know (C13.decode_encode_shift)
+    f0 = min(on for (_, on, _, _) in notes) if o["rs"] else 0
+    margin = int(Fraction(o["tm"]) * td)
+    if "et_frames" in d:
+        o["et"] = float(Fraction(d["et_frames"]) / td + Fraction(f0, td))
     in_range = all((21 <= p < 109) if d["piano"] else (0 <= p < 128) for (p, _, _, _) in notes)
     pr, exc = call(M.compute_pianoroll, arr, **kwargs_of(o))
     ev.requests.append("pr array " + req_args(o) + " " + req_array(lay, arr))
@@ -1651,9 +2103,10 @@ def eval_rt(d):
         got = sorted((int(r["pitch"]), rhe(W.as_fraction(r["onset_" + unit]) * td), rhe(W.as_fraction(r["duration_" + unit]) * td),
                       int(r["velocity"])) for r in back)
         ok_grid = all(abs(W.as_fraction(r["onset_" + unit]) * td - rhe(W.as_fraction(r["onset_" + unit]) * td)) < tol * td * 100 for r in back)
-        want = sorted((p, on, ln, v) for (p, on, ln, v) in notes)
+        want = sorted((p, on - f0 + margin, ln, v) for (p, on, ln, v) in notes)
         if got != want or not ok_grid:
-            ev.oracle.append("roundtrip: decoding the roll of %r gives %r" % (want, got))
+            ev.oracle.append("roundtrip: decoding the roll of %r (remove_silence=%r time_margin=%r end_time=%r; notes shifted "
+                             "by %d frames) gives %r" % (want, o["rs"], o["tm"], o["et"], margin - f0, got))
     ev.key = "|".join(ev.requests)
     return ev
 
@@ -1666,6 +2119,10 @@ def evaluate(d):
         return eval_dec(d)
     if k == "hist":
         return eval_hist(d)
+    if k == "decq":
+        return eval_decq(d)
+    if k == "kinds":
+        return eval_kinds(d)
     return eval_rt(d)
 
 
@@ -1727,6 +2184,23 @@ def shrink(d):
                     yield dict(d, variants=d["variants"][:vi] + [dict(o, **{kk: v})] + d["variants"][vi + 1:])
             if o.get("omit"):
                 yield dict(d, variants=d["variants"][:vi] + [{kk: v for kk, v in o.items() if kk != "omit"}] + d["variants"][vi + 1:])
+    elif k == "kinds":
+        if len(d["opts"]) > 1:
+            for o in d["opts"]:
+                yield dict(d, opts=[o])
+        for i in range(len(d["rows"])):
+            if len(d["rows"]) > 1:
+                yield dict(d, rows=d["rows"][:i] + d["rows"][i + 1:])
+        if len(d["opts"]) == 1:
+            o = d["opts"][0]
+            for kk in list(o["kd"]):
+                if len(o["kd"]) > 1:
+                    yield dict(d, opts=[dict(o, kd={a: b for a, b in o["kd"].items() if a != kk})])
+    elif k == "decq":
+        for i in range(len(d["cells"])):
+            yield dict(d, cells=d["cells"][:i] + d["cells"][i + 1:])
+        if d["form"] != "dense":
+            yield dict(d, form="dense", xz=[])
     elif k == "dec":
         for i in range(len(d["cells"])):
             yield dict(d, cells=d["cells"][:i] + d["cells"][i + 1:])
@@ -1758,6 +2232,21 @@ def distribution(descs, results):
                 opt["hist:calls=%d" % len(d["sched"])] += 1
                 if any(fn == "pc" for _, fn in d["sched"]):
                     opt["hist:with pc"] += 1
+            if d.get("k") == "kinds":
+                for o in d["opts"]:
+                    for kk, spec in o["kd"].items():
+                        opt["kinds:%s=%s" % ("flag" if kk in FLAG_KEYS else kk, spec[0])] += 1
+            if d.get("k") == "rt" and ("rs" in d):
+                opt["rt:shifted (rs=%s, margin %s, end_time %s)" % (d["rs"], "0" if not d["tm"] else "int" if d["tm"] == int(d["tm"]) else "frac",
+                                                                  "given" if "et_frames" in d else "none")] += 1
+            if d.get("k") == "decq":
+                opt["decq:%s/%s" % (d["dt"], d["form"])] += 1
+                ips = sorted({int(c[2]) for c in d["cells"]})
+                opt["decq:integer part 0 present"] += int(0 in ips and any(int(c[2]) == 0 for c in d["cells"]))
+                opt["decq:negative"] += int(any(c[2] < 0 for c in d["cells"]))
+                opt["decq:beyond int32"] += int(any(abs(c[2]) >= 2 ** 31 for c in d["cells"]))
+                opt["decq:explicit zeros"] += int(bool(d["xz"]))
+                continue
             if d.get("k") == "dec":
                 tdv = tm_val(d["td"])
                 opt["dec:td=%s" % ("omitted" if tdv is None else "0" if tdv == 0 else "int" if isinstance(tdv, int) else "float")] += 1
@@ -1786,10 +2275,15 @@ def distribution(descs, results):
                 opt["some keywords omitted"] += 1
             if "pc" in o:
                 opt["pc"] += 1
+    f64c = sum((r.get("info") or {}).get("f64_compared", 0) for r in results)
+    f64d = sum((r.get("info") or {}).get("f64_differs", 0) for r in results)
+    c["pr:f64 family"] = sum(1 for d in descs if d.get("fam") == "f64")
     errs = sum(1 for r in results for x in r.get("impl", []) if x == "err")
     skipped = sum((r.get("info") or {}).get("skipped_inexact", 0) for r in results)
     large = sum((r.get("info") or {}).get("skipped_large", 0) for r in results)
     sizes = Counter(min(len(d["rows"]), 12) for d in descs if d.get("k", "pr") == "pr" and d.get("src", "array") == "array")
     return {"by_kind": dict(c), "inputs": dict(srcs), "option_sets": n_opts, "options": dict(opt), "unit_sets": dict(units),
-            "array_sizes(capped 12)": dict(sizes), "error_observations": errs, "skipped_inexact_float": skipped,
+            "array_sizes(capped 12)": dict(sizes), "error_observations": errs,
+            "inexact_float_compared_with_binary64_model": f64c, "of_which_exact_reading_gives_another_roll": f64d,
+            "skipped_inexact_float(sessions)": skipped,
             "oracle_only_large_rolls": large}
